@@ -383,11 +383,12 @@ where
     let merged = Mutex::new(Outcome::default());
     let next_skipped = AtomicUsize::new(0);
     std::thread::scope(|s| {
+        let mut handles = vec![];
         for t in 0..threads {
             let f = &f;
             let merged = &merged;
             let next_skipped = &next_skipped;
-            std::thread::Builder::new()
+            let h = std::thread::Builder::new()
                 .name(format!("fv-{t}"))
                 .stack_size(16 << 20)
                 .spawn_scoped(s, move || {
@@ -415,6 +416,12 @@ where
                     merged.lock().unwrap().merge(local);
                 })
                 .expect("spawn");
+            handles.push(h);
+        }
+        // join explicitly: the scope alone only waits for the closures, an explicit join waits for
+        // the OS threads (thread-local destructors included)
+        for h in handles {
+            let _ = h.join();
         }
     });
     out.merge(merged.into_inner().unwrap());
